@@ -82,6 +82,12 @@ def run_streams(ctx, kinds, exh_narrow, exh_wide, sim_num, sim_depth, rich, n_ra
             continue
         seen.add(key)
         beh = json.loads(vlib.nth_line(allb, m["line"]))
+        if m["kind"] == "CmdPIDF" and any(st["in"].get("c") == "fol" and st["in"].get("o", {}).get("c") == "err" for st in beh["steps"]):
+            # how a controller that FOLLOWS a command getter passes on that getter's error is the following clause of C15 (checked there on the
+            # trait's provided method); the stream properties speak of errors of the INPUT.  Modelled all the same; reported as beyond-property.
+            ctx.beyond_property("Streams.tla (CmdPIDF: command PID following a command getter that reports an error) behaviour #%d step %d: %s; expected %s, "
+                                "implementation gave %s" % (m["line"], m["step"], m["what"], json.dumps(m["exp"])[:200], json.dumps(m["got"])[:200]))
+            continue
         sig = "%s:%s" % (m["kind"], m["what"])
         ctx.violation(sig, {"replay_kind": "streams", "behaviour": beh, "conc": m["conc"], "mismatch": m,
                             "features": features, "tag": tag, "structure_only": structure_only},
